@@ -132,6 +132,25 @@ P_OPS = [
     ("p_common_point_unit", "au::CommonPointUnitT<A, B> u{}; (void)u;", "any", ""),
 ]
 
+# Every member operation that takes a unit slot, again through the OTHER access paths and slot
+# spellings: the object reached through a const reference (the members are overloaded on constness
+# - data_in has four overloads) and the slot filled with a maker instead of a unit object.
+def _variants(ops, maker):
+    out = []
+    for (nm, code, direction, opt) in ops:
+        if "a." not in code or "B{}" not in code:
+            continue
+        c_const = "const auto &ca = a; " + code.replace("a.", "ca.")
+        c_maker = code.replace("B{}", "%s<B>{}" % maker)
+        out.append((nm + "_const", c_const, direction, opt))
+        out.append((nm + "_maker", c_maker, direction, opt))
+        out.append((nm + "_const_maker", "const auto &ca = a; " + c_maker.replace("a.", "ca."), direction, opt))
+    return out
+
+
+Q_OPS += _variants([o for o in Q_OPS if o[0] in ("as", "in", "as_rep", "coerce_in", "coerce_as_rep", "data_in")], "au::QuantityMaker")
+P_OPS += _variants([o for o in P_OPS if o[0] in ("p_as", "p_in", "p_in_rep", "p_coerce_as", "p_data_in")], "au::QuantityPointMaker")
+
 # Trait-style questions: whole item must compile.  {neg} is '!' for the mismatch, '' for the twin.
 SOFT = [
     ("soft_convertible", "static_assert({neg}std::is_convertible<au::Quantity<A, RA>, au::Quantity<B, RB>>::value, \"\");", "a2b"),
